@@ -280,3 +280,43 @@ Theorem C12_source_va_read_then_destroy : forall rf rp fo po k sx m h, Forall by
            inb fin2 = inb fin /\ Imp.lookup cells_var (vars fin2) = Some (VHeap (h ++ nones (S nb)))).
 Proof. exact va_read_then_destroy. Qed.
 Print Assumptions C12_source_va_read_then_destroy.
+
+(* one more level up: sbdf_cs_read from the source (its "goto end" translated as a loop that runs once), on every byte stream
+   whose values are not a bit array and whose property count is not positive (the property loop is not covered), under
+   EVERY allocation schedule.  The call returns a status.  On failure - wrong or missing section marker, the struct cannot be
+   allocated, the values cannot be read (stream or allocation), the count is missing or negative - the out-cell is
+   untouched and every block the call allocated has been released again by its sbdf_cs_destroy (the heap is the caller's,
+   followed by released blocks only).  On success the stream stands where the model's readers leave it (section marker,
+   va_read, a zero count), and ONE sbdf_cs_destroy on the result releases everything the read allocated, once. *)
+From Sbdf Require Import ImpFactsCsRead Va.
+Theorem C12_source_cs_read : forall rf rp fo po k sx m h, Forall byte sx ->
+  (forall s1, sec_expect SBDF_COLUMNSLICE_SECTIONID sx = Ok (tt, s1) -> forall t s2, s1 <> 3 :: t :: s2) ->
+  (forall s1 va s2 v s3, sec_expect SBDF_COLUMNSLICE_SECTIONID sx = Ok (tt, s1) -> Va.va_read false None s1 = Ok (va, s2) -> read_int32 false s2 = Ok (v, s3) -> v <= 0) ->
+  exists f0, forall f, (f0 <= f)%nat -> exists st fin,
+    callC prog_env f prog_sbdf_cs_read [VPtr rf fo; VPtr rp po] m k sx h = OReturn (VInt st) fin /\ prefix_of m (inb fin) /\
+    ((st = SBDF_OK /\ Imp.lookup "*out" (vars fin) = Some (VCell (List.length h) 0) /\
+        (exists s1 va s2 s3, sec_expect SBDF_COLUMNSLICE_SECTIONID sx = Ok (tt, s1) /\ Va.va_read false None s1 = Ok (va, s2) /\ read_int32 false s2 = Ok (0, s3) /\
+                             Imp.lookup strm_var (vars fin) = Some (VBytes s3)) /\
+        exists h' nb, Imp.lookup cells_var (vars fin) = Some (VHeap h') /\ List.length h' = (List.length h + S (S nb))%nat /\
+          forall k' s', exists f1, forall g, (f1 <= g)%nat -> exists fin2,
+            callC prog_env g prog_sbdf_cs_destroy [VCell (List.length h) 0] (inb fin) k' s' h' = OReturn (VInt 0) fin2 /\
+            inb fin2 = inb fin /\ Imp.lookup cells_var (vars fin2) = Some (VHeap (h ++ nones (S (S nb)))))
+     \/ (st < 0 /\ Imp.lookup "*out" (vars fin) = Some VUndef /\ exists j, Imp.lookup cells_var (vars fin) = Some (VHeap (h ++ nones j)))).
+Proof. exact cs_read_source. Qed.
+Print Assumptions C12_source_cs_read.
+
+(* the translated sbdf_cs_read run by the interpreter: a column slice with two plain int values and no properties is read; with
+   the fourth allocation failing (slice, handle, object header, DATA) everything is released again; a slice WITH one property
+   is read as well (the property loop, not covered by the theorem above, runs) *)
+Example C12_source_cs_read_runs :
+  let stream := [223; 91; 4;  1; 2;  2;0;0;0;  5;0;0;0; 7;0;0;0;  0;0;0;0;  99] in
+  (match callC prog_env 3000 prog_sbdf_cs_read [tok; tok] [] (-1) stream [] with
+   | OReturn v s => (v, Imp.lookup "*out" (vars s), Imp.lookup strm_var (vars s)) = (VInt SBDF_OK, Some (VCell 0 0), Some (VBytes [99]))
+   | _ => False end) /\
+  (match callC prog_env 3000 prog_sbdf_cs_read [tok; tok] [] 3 stream [] with
+   | OReturn v s => (v, Imp.lookup "*out" (vars s), Imp.lookup cells_var (vars s)) = (VInt SBDF_ERROR_OUT_OF_MEMORY, Some VUndef, Some (VHeap [None; None; None]))
+   | _ => False end) /\
+  (match callC prog_env 3000 prog_sbdf_cs_read [tok; tok] [] (-1) [223; 91; 4;  1; 2;  1;0;0;0;  5;0;0;0;  1;0;0;0;  1;0;0;0; 112;  1; 1;  1;0;0;0; 1;  98] [] with
+   | OReturn v s => (v, Imp.lookup strm_var (vars s)) = (VInt SBDF_OK, Some (VBytes [98]))
+   | _ => False end).
+Proof. vm_compute. repeat split. Qed.
